@@ -540,7 +540,7 @@ impl SingleFlightStub {
     fn work_dump_caller_info(&self, key: &String, fut: DownloadFut) -> (r: Result<(Vec<u8>, Vec<u32>)>)
         requires
             // OBLIGATION at the call site: the key is the flight key of what this caller downloads
-            /*@C17*/ key@ == spec_flight_key(fut.url(), fut.url_range()),
+            /*@C17,C20*/ key@ == spec_flight_key(fut.url(), fut.url_range()),
         ensures
             // the result of SOME download submitted under this key (each submitted by this call site, hence under its flight key)
             r matches Ok(p) ==> exists|u: Seq<char>, rg: HttpRange| no_space(u) && #[trigger] spec_flight_key(u, rg) == key@
